@@ -56,7 +56,9 @@ class BuildLock:
 # build steps
 
 def translate(groups):
-    rc, out = sh([sys.executable, os.path.join(ROOT, "translate", "run.py")] + list(groups), cwd=ROOT, timeout=300)
+    # every group is regenerated on every run (the sources may have changed since another check ran);
+    # only the property's own groups decide whether its obligations are broken
+    rc, out = sh([sys.executable, os.path.join(ROOT, "translate", "run.py")], cwd=ROOT, timeout=300)
     facts = {}
     try:
         with open(os.path.join(COQ, "Gen", "facts.json")) as f:
